@@ -307,6 +307,8 @@ func (s *CertSpec) extension(kind ExtKind, akiOf *Key) pkix.Extension {
 		return pkix.Extension{Id: oidExtKeyUsage, Value: mustMarshal([]asn1.ObjectIdentifier{oidEKUServerAuth, oidEKUClientAuth})}
 	case "ekuct":
 		return pkix.Extension{Id: oidExtKeyUsage, Value: mustMarshal([]asn1.ObjectIdentifier{oidEKUCT})}
+	case "ekuct+": // the CT purpose among others (RFC 6962 s3.1 asks for it to be present, not to be alone)
+		return pkix.Extension{Id: oidExtKeyUsage, Value: mustMarshal([]asn1.ObjectIdentifier{oidEKUServerAuth, oidEKUCT})}
 	case "ski":
 		return pkix.Extension{Id: oidSKI, Value: mustMarshal(s.Key.SKI)}
 	case "aki":
@@ -383,7 +385,7 @@ func (c *Cert) IsPrecert() bool {
 // IsPreIssuer reports whether the certificate is a precert-signing certificate.
 func (c *Cert) IsPreIssuer() bool {
 	for _, k := range c.Spec.Exts {
-		if k == "ekuct" {
+		if k == "ekuct" || k == "ekuct+" {
 			return c.Spec.IsCA
 		}
 	}
